@@ -59,6 +59,10 @@ pub trait Kind {
     fn is_unique(&self) -> bool {
         self.get() == 1
     }
+
+    /// Verification hook: forces the number of shares (no-op for `Unique`).
+    #[cfg(hipstr_verif)]
+    fn verif_set(&self, _shares: usize) {}
 }
 
 impl Kind for Unique {
@@ -114,6 +118,11 @@ impl Kind for Rc {
         // the count is strictly less than `usize::MAX`
         self.0.get() + 1
     }
+
+    #[cfg(hipstr_verif)]
+    fn verif_set(&self, shares: usize) {
+        self.0.set(shares - 1);
+    }
 }
 
 #[cfg(target_has_atomic = "ptr")]
@@ -156,6 +165,11 @@ impl Kind for Arc {
     #[inline]
     fn get(&self) -> usize {
         self.0.load(Ordering::Relaxed) + 1
+    }
+
+    #[cfg(hipstr_verif)]
+    fn verif_set(&self, shares: usize) {
+        self.0.store(shares - 1, Ordering::SeqCst);
     }
 
     #[inline]
@@ -316,6 +330,12 @@ where
 
     pub(crate) fn incr(&self) -> UpdateResult {
         self.inner().count.incr()
+    }
+
+    /// Verification hook: forces the number of shares.
+    #[cfg(hipstr_verif)]
+    pub(crate) fn verif_set_count(&self, shares: usize) {
+        self.inner().count.verif_set(shares);
     }
 }
 
